@@ -6,6 +6,7 @@ mod driver;
 mod e2;
 mod e2drv;
 mod e2torn;
+mod e3;
 mod e2power;
 mod e2evict;
 mod e2fault;
@@ -63,6 +64,11 @@ fn main() {
             if id == "C17" {
                 std::process::exit(c17::check_c17(tier, seed));
             }
+            if id == "C06" {
+                std::process::exit(driver::check_simple("C06", tier, seed, 9600, 200_000, "exploration", e3::C06_RULE,
+                    &["owned schedules cover the windows named by the pause points; sampled schedules are samples of real thread interleavings", "intruders that need the journal lock or the keyspace-map write lock (clear, rotation, ingestion finish, keyspace create/delete) cannot run inside the window by construction"],
+                    e3::replay_c06, "cases+histories"));
+            }
             eprintln!("unknown property {id}");
             std::process::exit(2);
         }
@@ -101,10 +107,30 @@ fn main() {
                 std::fs::write(out, serde_json::to_string(&o).unwrap()).unwrap();
                 return;
             }
+            if id == "C06" {
+                let o = e3::shard_c06(tier, seed, shard, cases, &exclude);
+                std::fs::write(out, serde_json::to_string(&o).unwrap()).unwrap();
+                return;
+            }
             std::process::exit(2);
         }
         "replay" => {
             let file = args.get(3).expect("file");
+            if id == "C06" {
+                let s = std::fs::read_to_string(file).expect("readable replay file");
+                let v: serde_json::Value = serde_json::from_str(&s).expect("json");
+                match e3::replay_c06(&v, &BTreeSet::new()) {
+                    Some(msg) => {
+                        println!("replay fails: {msg}");
+                        println!("VIOLATION property={id} replay={file}");
+                        std::process::exit(1);
+                    }
+                    None => {
+                        println!("replay passes");
+                        std::process::exit(0);
+                    }
+                }
+            }
             if id == "C17" {
                 let s = std::fs::read_to_string(file).expect("readable replay file");
                 let v: serde_json::Value = serde_json::from_str(&s).expect("json");
